@@ -84,6 +84,8 @@ func LoadDictionary(repo string) (words, nums int) {
 			curPkg = ""
 			if rel, e2 := filepath.Rel(filepath.Join(repo, "pkg", "ecosystem"), path); e2 == nil && !strings.HasPrefix(rel, "..") {
 				curPkg = strings.Split(filepath.ToSlash(rel), "/")[0]
+			} else if sub == "cmd" {
+				curPkg = "cmd"
 			}
 			ast.Inspect(f, func(n ast.Node) bool {
 				bl, ok := n.(*ast.BasicLit)
@@ -189,6 +191,9 @@ func EcoNum(eco string, r *rand.Rand) string {
 	}
 	return DictNum(r)
 }
+
+// PkgWords returns the literal words of one package ("cmd" = the CLI sources, else an ecosystem name).
+func PkgWords(pkg string) []string { return ecoWords[pkg] }
 
 // DictSizes reports the dictionary sizes (evidence).
 func DictSizes() (int, int) { return len(dictWords), len(dictNums) }
